@@ -1,11 +1,8 @@
 (* C40: the staging state machine over operation histories -- the mint map keeps
    unique keys, mint_asset accumulates, remove_mint_asset forgets. *)
-From PV Require Import Lib.Base C40.Model C40.SortFacts.
+From PV Require Import Lib.Base C40.Model C40.Spec C40.SortFacts.
 From Coq Require Import Sorting.Sorted.
 Open Scope Z_scope.
-
-Definition inner_wf (l : inner) : Prop := NoDup (map fst l).
-Definition amap_wf (m : amap) : Prop := NoDup (map fst m) /\ Forall (fun e => inner_wf (snd e)) m.
 
 (* ---------- inner maps ---------- *)
 Lemma inner_add_keys lo hi n a l l' : inner_add lo hi n a l = Some l' ->
@@ -55,13 +52,15 @@ Proof.
   - cbn [filter fst]. destruct (bytes_eqb n0 n) eqn:E; cbn [negb inner_lookup].
     + rewrite IH. apply bytes_eqb_eq in E. subst n0. destruct (bytes_eqb n x); reflexivity.
     + rewrite IH. destruct (bytes_eqb n0 x) eqn:E0; [|reflexivity].
-      apply bytes_eqb_eq in E0. subst n0. rewrite E. reflexivity.
+      apply bytes_eqb_eq in E0. subst n0. destruct (bytes_eqb n x) eqn:E1; [|reflexivity].
+      apply bytes_eqb_eq in E1. subst x. rewrite (proj2 (bytes_eqb_eq n n) eq_refl) in E. discriminate.
 Qed.
 
 Lemma inner_remove_wf n l : inner_wf l -> inner_wf (inner_remove n l).
 Proof.
-  unfold inner_wf, inner_remove. induction l as [|[n0 a0] r IH]; cbn; intros H; [constructor|].
-  inversion H as [|x y Hn Hr]; subst. destruct (negb (bytes_eqb n0 n)); cbn; [constructor|]; auto.
+  unfold inner_wf, inner_remove. induction l as [|[n0 a0] r IH]; intros H; [constructor|].
+  cbn [map fst] in H. inversion H as [|x y Hn Hr]; subst. cbn [filter fst].
+  destruct (negb (bytes_eqb n0 n)); cbn [map fst]; [constructor|]; auto.
   intros Hin. apply Hn. apply in_map_iff in Hin as [e [He Hin]]. apply filter_In in Hin as [Hin _].
   apply in_map_iff. exists e. auto.
 Qed.
@@ -190,20 +189,6 @@ Proof.
 Qed.
 
 (* ---------- histories ---------- *)
-(* the quantity staged for (p, n) after a history: mint_asset adds, remove_mint_asset forgets *)
-Fixpoint mint_spec (ops : list sop) (cur : option Z) (p : hash) (n : bytes) : option Z :=
-  match ops with
-  | [] => cur
-  | o :: r =>
-    mint_spec r
-      (match o with
-       | OMint p' n' a => if (p' =? p) && bytes_eqb n' n
-                          then Some (match cur with Some v => v + a | None => a end) else cur
-       | ORemoveMint p' n' => if (p' =? p) && bytes_eqb n' n then None else cur
-       | _ => cur
-       end) p n
-  end.
-
 Lemma apply_op_mint st o st' p n : amap_wf (s_mint st) -> apply_op st o = Ok st' ->
   amap_wf (s_mint st') /\
   amap_lookup p n (s_mint st') =
@@ -269,9 +254,9 @@ Qed.
 Lemma norm_amap_keys_nodup m : NoDup (map fst m) -> NoDup (map fst (norm_amap m)).
 Proof.
   intros H. unfold norm_amap. apply isort_keys_nodup.
-  induction m as [|[p l] r IH]; cbn; [constructor|].
-  inversion H as [|a b Hn Hr]; subst.
-  destruct (norm_inner l) eqn:E; cbn; [apply IH; exact Hr|].
+  induction m as [|[p l] r IH]; [constructor|].
+  cbn [map fst] in H. inversion H as [|a b Hn Hr]; subst. cbn [map filter fst snd].
+  destruct (norm_inner l) eqn:E; cbn [map fst]; [apply IH; exact Hr|].
   constructor; [|apply IH; exact Hr].
   intros Hin. apply Hn. apply in_map_iff in Hin as [e [He Hin]]. apply filter_In in Hin as [Hin _].
   apply in_map_iff in Hin as [e0 [He0 Hin]]. subst e. cbn in He. apply in_map_iff. exists e0. auto.
@@ -285,7 +270,7 @@ Proof.
   inversion Hs as [|a b Hr Hf]; subst. inversion Hn as [|a b Hni Hnr]; subst.
   constructor; [apply IH; assumption|].
   rewrite Forall_forall in *. intros x Hin. apply in_map_iff in Hin as [e [He Hin]]. subst x.
-  specialize (Hf e Hin). cbn in Hf.
+  specialize (Hf e Hin). cbn [fst] in Hf. apply Z.leb_le in Hf.
   assert (fst e <> p). { intros Heq. apply Hni. apply in_map_iff. exists e. auto. }
-  lia.
+  unfold hash in *. lia.
 Qed.
